@@ -14,11 +14,66 @@ theorem m_nestSeq_cons (e : Env) (x : Pat) (xs : List Pat) (st : St) :
   | nil => simp [nestSeq, nest, m]
   | cons y ys => simp [nestSeq, nest, m]
 
-theorem m_nestAlt_cons (e : Env) (x : Pat) (xs : List Pat) (st : St) :
-    m e (nestAlt (x :: xs)) false st = m e x false st ++ m e (nestAlt xs) false st := by
+theorem m_nestAlt_cons (e : Env) (x : Pat) (xs : List Pat) (d : Bool) (st : St) :
+    m e (nestAlt (x :: xs)) d st = m e x d st ++ m e (nestAlt xs) d st := by
   cases xs with
   | nil => simp [nestAlt, nest, m]
   | cons y ys => simp [nestAlt, nest, m]
+
+/-- right to left the LAST pattern of a concatenation is matched first -/
+theorem m_nestSeq_cons_rtl (e : Env) (x : Pat) (xs : List Pat) (st : St) :
+    m e (nestSeq (x :: xs)) true st = (m e (nestSeq xs) true st).flatMap (m e x true) := by
+  cases xs with
+  | nil => simp [nestSeq, nest, m]
+  | cons y ys => simp [nestSeq, nest, m]
+
+theorem flatMap_singleton_self {α : Type} (l : List α) : l.flatMap (fun x => [x]) = l := by
+  induction l with
+  | nil => rfl
+  | cons x xs ih => simp [ih]
+
+theorem m_nestSeq_append_single_rtl (e : Env) (p : Pat) : ∀ (qs : List Pat) (st : St),
+    m e (nestSeq (qs ++ [p])) true st = (m e p true st).flatMap (m e (nestSeq qs) true)
+  | [], st => by
+    have : (fun s => m e (nestSeq []) true s) = fun s => [s] := by funext s; simp [nestSeq, nest, m]
+    simp only [List.nil_append]
+    rw [show m e (nestSeq []) true = fun s => [s] from this, flatMap_singleton_self]
+    simp [nestSeq, nest]
+  | q :: qs, st => by
+    rw [List.cons_append, m_nestSeq_cons_rtl, m_nestSeq_append_single_rtl e p qs st, List.flatMap_assoc]
+    congr 1
+    funext s
+    rw [m_nestSeq_cons_rtl]
+
+/-- the children of a concatenation in the order the code runs them: stored order; the specification's pattern lists
+    them reversed when matching right to left -/
+def seqList (e : Env) (d : Bool) : List Pat → St → List St
+  | [], st => [st]
+  | p :: ps, st => (m e p d st).flatMap (seqList e d ps)
+
+theorem m_nestSeq_dir (e : Env) (d : Bool) : ∀ (ps : List Pat) (st : St),
+    m e (nestSeq (if d then ps.reverse else ps)) d st = seqList e d ps st := by
+  cases d with
+  | false =>
+    intro ps
+    simp only [Bool.false_eq_true, if_false]
+    induction ps with
+    | nil => intro st; simp [nestSeq, nest, m, seqList]
+    | cons p ps ih =>
+      intro st
+      rw [m_nestSeq_cons, seqList]
+      congr 1
+      funext s; exact ih s
+  | true =>
+    intro ps
+    simp only [if_true]
+    induction ps with
+    | nil => intro st; simp [nestSeq, nest, m, seqList]
+    | cons p ps ih =>
+      intro st
+      rw [List.reverse_cons, m_nestSeq_append_single_rtl, seqList]
+      congr 1
+      funext s; exact ih s
 
 /-- a literal string matches exactly where the text spells it -/
 theorem m_multi (e : Env) (C : List (Nat × Nat × Nat)) : ∀ (str : List Nat) (i : Nat),
@@ -47,6 +102,56 @@ theorem m_multi (e : Env) (C : List (Nat × Nat × Nat)) : ∀ (str : List Nat) 
       · have hne : (r == c) = false := by simpa using hrc
         have hne' : ¬ c = r := fun h => hrc h.symm
         simp [m, stepChar, hx, Pred.test, hne, hd, hne']
+
+/-- right to left a literal string matches exactly where the text before the position spells it -/
+theorem m_multi_rtl (e : Env) (C : List (Nat × Nat × Nat)) : ∀ (str : List Nat) (i : Nat),
+    m e (nestSeq (str.map (fun r => .chr (.one r false)))) true ⟨i, C⟩ =
+      if str.length ≤ i ∧ (e.text.drop (i - str.length)).take str.length = str then [⟨i - str.length, C⟩] else []
+  | [], i => by simp [nestSeq, nest, m]
+  | r :: rest, i => by
+    rw [List.map_cons, m_nestSeq_cons_rtl, m_multi_rtl e C rest i]
+    by_cases h1 : rest.length ≤ i ∧ (e.text.drop (i - rest.length)).take rest.length = rest
+    · rw [if_pos h1]
+      simp only [List.flatMap_cons, List.flatMap_nil, List.append_nil, List.length_cons]
+      by_cases h0 : i - rest.length = 0
+      · have hle : ¬ rest.length + 1 ≤ i := by omega
+        simp [m, stepChar, h0, hle]
+      · have hj : i - (rest.length + 1) + 1 = i - rest.length := by omega
+        have e1 : i - rest.length - 1 = i - (rest.length + 1) := by omega
+        cases hx : e.text[i - (rest.length + 1)]? with
+        | none =>
+          have hlen : e.text.length ≤ i - (rest.length + 1) := by simpa using hx
+          have hd : e.text.drop (i - (rest.length + 1)) = [] :=
+            List.drop_eq_nil_of_le (by omega)
+          simp [m, stepChar, h0, e1, hx, hd]
+        | some c =>
+          have hlt := (List.getElem?_eq_some_iff.mp hx).1
+          have hget := (List.getElem?_eq_some_iff.mp hx).2
+          have hd : e.text.drop (i - (rest.length + 1)) = c :: e.text.drop (i - rest.length) := by
+            rw [List.drop_eq_getElem_cons hlt, hget, hj]
+          have hle : rest.length + 1 ≤ i := by omega
+          by_cases hrc : r = c
+          · subst hrc
+            simp [m, stepChar, h0, e1, hx, Pred.test, hd, hle, h1.2]
+          · have hne : (r == c) = false := by simpa using hrc
+            have hne' : ¬ c = r := fun h => hrc h.symm
+            simp [m, stepChar, h0, e1, hx, Pred.test, hne, hd, hne']
+    · rw [if_neg h1]
+      simp only [List.flatMap_nil, List.length_cons]
+      have : ¬ (rest.length + 1 ≤ i ∧ (e.text.drop (i - (rest.length + 1))).take (rest.length + 1) = r :: rest) := by
+        rintro ⟨hle, heq⟩
+        apply h1
+        refine ⟨by omega, ?_⟩
+        have hj : i - (rest.length + 1) + 1 = i - rest.length := by omega
+        cases hdr : e.text.drop (i - (rest.length + 1)) with
+        | nil => rw [hdr] at heq; simp at heq
+        | cons c tl =>
+          rw [hdr] at heq
+          simp only [List.take_succ_cons, List.cons.injEq] at heq
+          have : e.text.drop (i - rest.length) = tl := by
+            rw [← hj, ← List.drop_drop, hdr]; rfl
+          rw [this]; exact heq.2
+      rw [if_neg this]
 
 /-- captures are only appended -/
 theorem iter_caps_ext (f : St → List St) (hf : ∀ st, ∀ st' ∈ f st, ∃ ext, st'.caps = st.caps ++ ext)
@@ -177,5 +282,165 @@ theorem m_caps_ext (e : Env) : ∀ (p : Pat) (rtl : Bool) (st : St), ∀ st' ∈
       obtain ⟨e2, he2⟩ := ihy rtl { pos := st.pos, caps := x.caps } st' h
       exact ⟨e1 ++ e2, by rw [he2]; simp [he1]⟩
     · exact ihn rtl st st' h
+
+/-! ## direction, and one round of `iter` -/
+
+/-- `b` lies at or beyond `a` in the direction of the match -/
+def dirLe (rtl : Bool) (a b : Nat) : Prop := if rtl then b ≤ a else a ≤ b
+
+theorem dirLe_refl (rtl : Bool) (a : Nat) : dirLe rtl a a := by cases rtl <;> simp [dirLe]
+
+theorem dirLe_trans {rtl : Bool} {a b c : Nat} (h1 : dirLe rtl a b) (h2 : dirLe rtl b c) : dirLe rtl a c := by
+  cases rtl <;> simp only [dirLe, Bool.false_eq_true, if_false, if_true] at * <;> omega
+
+/-- a pattern only moves the position in its direction -/
+theorem m_dir (e : Env) : ∀ (p : Pat) (rtl : Bool) (st : St), ∀ st' ∈ m e p rtl st, dirLe rtl st.pos st'.pos := by
+  intro p
+  induction p with
+  | empty => intro rtl st st' h; simp [m] at h; subst h; exact dirLe_refl _ _
+  | nothing => intro rtl st st' h; simp [m] at h
+  | chr pr =>
+    intro rtl st st' h
+    simp only [m] at h
+    split at h
+    · next r pos' hs =>
+      split at h
+      · simp at h; subst h
+        unfold stepChar at hs
+        cases rtl with
+        | true =>
+          simp only [if_true] at hs
+          split at hs
+          · cases hs
+          · cases hg : e.text[st.pos - 1]? with
+            | none => simp [hg] at hs
+            | some x => simp [hg] at hs; simp only [dirLe, if_true]; omega
+        | false =>
+          simp only [Bool.false_eq_true, if_false] at hs
+          cases hg : e.text[st.pos]? with
+          | none => simp [hg] at hs
+          | some x => simp [hg] at hs; simp only [dirLe, Bool.false_eq_true, if_false]; omega
+      · simp at h
+    · simp at h
+  | anchor a =>
+    intro rtl st st' h
+    simp only [m] at h
+    split at h
+    · simp at h; subst h; exact dirLe_refl _ _
+    · simp at h
+  | seq a b iha ihb =>
+    intro rtl st st' h
+    simp only [m] at h
+    split at h
+    · simp only [List.mem_flatMap] at h
+      obtain ⟨mid, hmid, h⟩ := h
+      exact dirLe_trans (ihb rtl st mid hmid) (iha rtl mid st' h)
+    · simp only [List.mem_flatMap] at h
+      obtain ⟨mid, hmid, h⟩ := h
+      exact dirLe_trans (iha rtl st mid hmid) (ihb rtl mid st' h)
+  | alt a b iha ihb =>
+    intro rtl st st' h
+    simp only [m] at h
+    rcases List.mem_append.1 h with h | h
+    · exact iha rtl st st' h
+    · exact ihb rtl st st' h
+  | quant lzy lo hi body ih =>
+    intro rtl st st' h
+    simp only [m] at h
+    exact iter_preserves (fun x => dirLe rtl st.pos x.pos) (m e body rtl)
+      (fun s hs s' hs' => dirLe_trans hs (ih rtl s s' hs')) lzy lo hi _ 0 st (dirLe_refl _ _) st' h
+  | cap g body ih =>
+    intro rtl st st' h
+    simp only [m, List.mem_map] at h
+    obtain ⟨mid, hmid, rfl⟩ := h
+    exact ih rtl st mid hmid
+  | look behind neg body ih =>
+    intro rtl st st' h
+    simp only [m] at h
+    split at h
+    · split at h
+      · simp at h; subst h; exact dirLe_refl _ _
+      · simp at h
+    · split at h
+      · simp at h
+      · simp at h; subst h; exact dirLe_refl _ _
+  | atomic body ih =>
+    intro rtl st st' h
+    simp only [m] at h
+    exact ih rtl st st' (List.mem_of_mem_take h)
+  | ref g ci =>
+    intro rtl st st' h
+    simp only [m] at h
+    split at h
+    · simp at h
+    · next s len _ =>
+      split at h
+      · next pos' hr =>
+        simp at h; subst h
+        unfold refMatch at hr
+        cases rtl with
+        | true =>
+          simp only [if_true] at hr
+          split at hr
+          · cases hr
+          · split at hr
+            · simp at hr; simp only [dirLe, if_true]; omega
+            · cases hr
+        | false =>
+          simp only [Bool.false_eq_true, if_false] at hr
+          split at hr
+          · simp at hr; simp only [dirLe, Bool.false_eq_true, if_false]; omega
+          · cases hr
+      · simp at h
+  | refCond g y n ihy ihn =>
+    intro rtl st st' h
+    simp only [m] at h
+    split at h
+    · exact ihy rtl st st' h
+    · exact ihn rtl st st' h
+  | exprCond c y n ihc ihy ihn =>
+    intro rtl st st' h
+    simp only [m] at h
+    split at h
+    · next x _ _ => exact ihy rtl { pos := st.pos, caps := x.caps } st' h
+    · exact ihn rtl st st' h
+
+/-- what `iter` does with a success `st'` of the body started at position `q` after `cnt` completed iterations -/
+def iterNext (f : St → List St) (lzy : Bool) (lo : Nat) (hi : Option Nat) (fuel cnt q : Nat) (st' : St) : List St :=
+  if st'.pos == q && decide (lo ≤ cnt + 1) then [st'] else iter f lzy lo hi fuel (cnt + 1) st'
+
+theorem iter_succ (f : St → List St) (lzy : Bool) (lo : Nat) (hi : Option Nat) (fuel cnt : Nat) (st : St) :
+    iter f lzy lo hi (fuel + 1) cnt st =
+      (if lzy then (if lo ≤ cnt then [st] else []) ++
+          (if canGo hi cnt then (f st).flatMap (iterNext f lzy lo hi fuel cnt st.pos) else [])
+        else (if canGo hi cnt then (f st).flatMap (iterNext f lzy lo hi fuel cnt st.pos) else []) ++
+          (if lo ≤ cnt then [st] else [])) := by
+  have hfun : (fun st' => if (st'.pos == st.pos && decide (lo ≤ cnt + 1)) = true then [st']
+      else iter f lzy lo hi fuel (cnt + 1) st') = iterNext f lzy lo hi fuel cnt st.pos := by
+    funext st'; rfl
+  simp only [iter, hfun]
+
+/-- the list a loop's tail instruction delivers when it is reached at `st` after `k` iterations, the last one started
+    at `q` (`-1`: none yet), if `rest` is what another round of the body delivers -/
+def tailList (lzy : Bool) (lo : Nat) (hi : Option Nat) (k : Nat) (q : Int) (st : St) (rest : List St) : List St :=
+  if lzy then (if lo ≤ k then [st] else []) ++
+      (if canGo hi k && !(decide (q = (st.pos : Int)) && decide (lo ≤ k)) then rest else [])
+  else (if canGo hi k && !(decide (q = (st.pos : Int)) && decide (lo ≤ k)) then rest else []) ++
+      (if lo ≤ k then [st] else [])
+
+/-- the empty iteration that ends the loop -/
+theorem tailList_stop {lzy : Bool} {lo : Nat} {hi : Option Nat} {k : Nat} {q : Int} {st : St} {rest : List St}
+    (hq : q = (st.pos : Int)) (hk : lo ≤ k) : tailList lzy lo hi k q st rest = [st] := by
+  cases lzy <;> simp [tailList, hq, hk]
+
+/-- another round -/
+theorem tailList_go {f : St → List St} {lzy : Bool} {lo : Nat} {hi : Option Nat} {fuel k : Nat} {q : Int} {st : St}
+    (hq : ¬ (q = (st.pos : Int) ∧ lo ≤ k)) :
+    tailList lzy lo hi k q st ((f st).flatMap (iterNext f lzy lo hi fuel k st.pos)) =
+      iter f lzy lo hi (fuel + 1) k st := by
+  have : (decide (q = (st.pos : Int)) && decide (lo ≤ k)) = false := by
+    rw [Bool.eq_false_iff]; intro h; simp only [Bool.and_eq_true, decide_eq_true_eq] at h; exact hq h
+  rw [iter_succ]
+  simp only [tailList, this, Bool.not_false, Bool.and_true]
 
 end RegexVerif.Compile
